@@ -39,7 +39,7 @@ check('C01', 'E1', 'exploration',
 
 check('C03', 'E1', 'exploration',
       'bounded exhaustive enumeration of conditional trees, oracle = AST evaluation',
-      'Every conditional tree of depth <= 2 (quick) / 3 (thorough) over 25 boolean tests and \\ifcase with 1-3 \\or arms and every '
+      'Every conditional tree of depth <= 2 (quick; thorough adds depth 3 over a representative sub-menu in four placements) over 36 boolean tests and \\ifcase with 1-3 \\or arms and every '
       'selector from -1 to k+2, with/without \\else, a nested conditional in every taken or untaken branch position, in four '
       'placements (top level, group, macro body, macro argument), is parsed by the real engine; expected marker text, a '
       'bit-mask counter of executed branches and the final \\newif state come from evaluating the tree. Untaken branches are '
@@ -62,7 +62,7 @@ check('C02', 'E1', 'exploration',
 
 check('C04', 'E2', 'model_checking',
       'explicit-state BFS over Context API histories in lock-step with a scope-stack model, plus exhaustive nesting programs',
-      '(a) Breadth-first search over all histories (depth 5 quick / 7 thorough) of push / push(environment) / pop / pop(environment) / '
+      '(a) Breadth-first search over all histories (depth 5 quick / 6 thorough) of push / push(environment) / pop / pop(environment) / '
       'pop(end token) / local and global newdef / let / character let / catcode / setVerbatimCatcodes / switch setter issued on a '
       'real Context; after every history every frame (local names, lets, category table and its sharing with other frames) and '
       'every public lookup is compared with a textbook lexical-scope stack; badly nested pops are explored one step and must '
@@ -175,8 +175,8 @@ check('C17', 'E2', 'model_checking',
       'Events are 27 documents that touch interpreter-wide state (register assignments, \\setlength, article/report/book, ifthen, '
       '\\newcolumntype, input ending inside math / \\mbox{$ / lists / verbatim / a group, \\openout, \\newif, \\appendix, index, '
       'bibliography, babel, redefinitions, catcodes) and all carry an observer block. Every ordered pair A;B (including B;B) is '
-      'run exhaustively, then histories are extended from every distinct leaked state to depth 3 (quick) / 4 (thorough). After '
-      'every completed document a generic snapshot of all class attributes of all Macro subclasses must equal the pristine one, '
+      'run exhaustively, then histories are extended from every distinct leaked state to depth 3 (quick) / 4 (thorough; thorough also runs every ordered triple). After '
+      'every completed document a generic snapshot of all class attributes of all Macro subclasses (and of Context, TeX, TeXDocument), of the module-level containers of the plasTeX modules and of the TEX* environment variables must equal the pristine one, '
       'and the canonical tree (for three documents also the rendered HTML5 files) of the last document must equal that of the '
       'same document processed alone in a fresh interpreter.',
       'Trusted: vp/state.py snapshot (module-level Macro subclasses); differences are attributed to the one open finding '
@@ -225,10 +225,10 @@ check('C15', 'E2', 'model_checking',
 
 check('C13', 'E1', 'exploration',
       'bounded exhaustive enumeration of sectioning forests x split levels x filename templates x themes; file-ownership partition oracle',
-      'Every sequence of <= 3 (quick) / 4 (thorough) headings over the class levels (arbitrary level jumps), each unit with a '
+      'Every sequence of <= 3 headings (thorough: every template/theme/variant for <= 3, plus every 4-heading sequence in the plain default configuration) over the class levels (arbitrary level jumps; also the three levels below subsubsection), each unit with a '
       'unique body marker, in a plain variant and a variant with a footnote, a label and colliding titles full of forbidden '
       'characters, is rendered for EVERY split level -10..6 x six filename templates (default, id/title alternatives, numbered, '
-      'two single-file forms, a static list that runs out) x forbidden-character sets x HTML5 default/minimal and XHTML; the '
+      'two single-file forms, a static list that runs out) x forbidden-character sets and substitutes x HTML5 default/minimal, XHTML and the Text renderer (also after toXML(), as second document of one renderer / configuration object); the '
       'body markers must be partitioned over the files exactly as the ownership model predicts (a unit owns a file iff its '
       'level <= split level), each exactly once, in document order, footnote text after the body text of its file; file names '
       'must be free of forbidden characters and identical when the same input is rendered again in a fresh process.',
